@@ -2,6 +2,8 @@
 
 from __future__ import annotations
 
+from pathlib import Path
+
 from .. import gen, probe, spec
 from .common import call
 
@@ -164,6 +166,17 @@ def run_case(ctx, g, rng):
     S.counters["wl:tsv"] += 1
     # every writer once more on the same converter object, in another order: writing is reading - the second file
     # must read back like the first
+    # the same writers addressed by a relative name, after the process changed its working directory (to the scratch
+    # directory) since the library was imported: what is written is found again under the same relative name
+    import os
+
+    os.chdir(tmp)
+    call(api.write_extended_prefix_map, c, "rel_e.json")
+    call(api.write_shacl, c, "rel_s.ttl", include_synonyms=rng.random() < 0.5)
+    call(api.write_tsv, c, rng.choice(["rel_t.tsv", Path("rel_t.tsv")]))
+    if not any(p.startswith("@") or not p for r in recs for p in spec.all_p(r)):
+        call(api.write_jsonld_context, c, Path("sub") / "rel_j.json" if False else "rel_j.json", include_synonyms=rng.random() < 0.5, expand=rng.random() < 0.5)
+    S.counters["wl:relative-file-names"] += 3
     again = [("epm", None, None), ("shacl", False, None), ("shacl", True, None), ("tsv", None, None)]
     if not any(p.startswith("@") for r in recs for p in spec.all_p(r)):
         again += [("jsonld", syn, exp) for syn in (False, True) for exp in (False, True)] + [("jsonld", True, True)]
